@@ -430,3 +430,4 @@ theorem l2_field (sch : List F2) (ctx : Nat) (hctx : ctx ≠ 0) (i : Nat) (hi : 
     simpa using this
 
 end PbWire
+
